@@ -33,7 +33,7 @@ ANCHOR_FILES = ("_core", "_actions", "_typehints", "_common", "_link_arguments",
 NO_SHRINK = ("parsers/*/opts", "parsers/*/opts/*", "world", "pristine")
 SHRINK_DICTS = ("world/files", "world/env")
 
-FEATURES = ["l", "dd", "base", "bdef", "model", "fn", "probe", "cfg", "sub", "dcf", "env", "lst"]
+FEATURES = ["l", "dd", "hd", "base", "bdef", "model", "fn", "probe", "cfg", "sub", "dcf", "env", "lst"]
 
 
 def parser_spec(feats, eoe):
@@ -44,6 +44,8 @@ def parser_spec(feats, eoe):
         args.append({"k": "arg", "name": "l", "type": "list_int", "default": []})
     if "dd" in feats:
         args.append({"k": "arg", "name": "dd", "type": "opt_D", "default": None})
+    if "hd" in feats:
+        args.append({"k": "class", "cls": "WithData", "name": "hd"})
     if "base" in feats:
         args.append({"k": "arg", "name": "base", "type": "opt_base", "default": None})
     if "bdef" in feats:
@@ -72,6 +74,7 @@ ARGV = {
     "_": [[], ["--help"], ["--unknown=1"], ["--a=1"], ["--a=x"], ["--a", "7"], ["--a"]],
     "l": [["--l+=1"], ["--l=[1,2]"], ["--l+=x"], ["--l+=[3,4]"]],
     "dd": [["--dd.u=3"], ['--dd={"u":2,"w":[1]}'], ["--dd.zz=1"], ["--dd=null"]],
+    "hd": [["--hd.d.u=5", "--hd.d.w=[3.0]"], ["--hd.d.w=[1.5]"], ["--hd.d.u=6"], ["--hd.k=2"], ['--hd.d={"u": 8}'], ["--hd.d=null"], ["--hd.d.u=x"]],
     "base": [
         ["--base=Sub1"],
         ["--base.n=3"],
@@ -118,6 +121,7 @@ OBJ = {
     "_": [{}, {"a": 3}, {"a": "x"}, {"zz": 1}],
     "l": [{"l": [1, 2]}, {"l": "x"}],
     "dd": [{"dd": {"u": 5}}, {"dd": {"u": "x"}}],
+    "hd": [{"hd": {"d": {"u": 7}}}, {"hd": {"d": {"w": [2.0]}}}, {"hd": {"k": 3}}],
     "base": [{"base": {"class_path": "dsim.simtypes.Sub1"}}, {"base": {"class_path": "dsim.simtypes.Sub1", "init_args": {"child": {"class_path": "Base"}}}}, {"base": {"class_path": "os.path"}}],
     "bdef": [{"bdef": {"class_path": "dsim.simtypes.Base"}}, {"bdef": {"init_args": {"n": 9}}}, {"bdef": {"class_path": "dsim.simtypes.Sub2", "init_args": {"k": 3}}}, {"bdef": "Base"}],
     "probe": [{"probe": "p:y"}, {"probe": 3}],
@@ -140,6 +144,7 @@ STR = {
     "bdef": ["bdef: Base\n", "bdef:\n  class_path: dsim.simtypes.Sub2\n", '{"bdef": {"init_args": {"n": 3}}}', '{"bdef": {"init_args": {"opts": {"b": 1.0}}}}'],
     "model": ['{"model": {"base": {"init_args": {"n": 1}}}}', '{"model": {"name": "w"}}'],
     "dd": ['{"dd": {"u": 4}}', '{"dd": {"w": [2.5]}}'],
+    "hd": ['{"hd": {"d": {"u": 4}}}', '{"hd": {"d": {"w": [2.5]}}}'],
     "sub": ["fit:\n  lr: 0.9\n", '{"fit": {"model": {"init_args": {"width": 2}}}}'],
     "lst": ['{"bases": [{"init_args": {"n": 2}}]}'],
     "probe": ["probe: p:z\n"],
@@ -219,6 +224,30 @@ def gen_op(rng, pi, feats):
     return {"p": pi, "kind": "edit", "env": rng.choice(["APP_A", "APP_L"]), "value": rng.choice([None, "3", "x", "[4]"])}
 
 
+def _dflt(rng, parsers):
+    if rng.random() < 0.2:
+        return ""
+    common = None
+    for p in parsers:
+        if "dcf" in p["feats"]:
+            common = set(p["feats"]) if common is None else common & set(p["feats"])
+    d = {"a": 9}
+    for f, v in (("probe", "p:d"), ("l", [4]), ("bdef", "Base"), ("base", "Sub1"), ("dd", {"u": 6}), ("hd", {"d": {"u": 2}})):
+        if common and f in common and rng.random() < 0.5:
+            d[f] = v
+    return json.dumps(d) + "\n"
+
+
+BATTERY = [
+    {"kind": "args", "argv": []},
+    {"kind": "args", "argv": ["--a=x"]},
+    {"kind": "args", "argv": ["--a=3"]},
+    {"kind": "defaults"},
+    {"kind": "dump", "argv": [], "kw": {}},
+    {"kind": "obj", "obj": {"zz": 1}},
+]
+
+
 def generate(rng, tier):
     big = tier == "thorough"
     nparsers = rng.choice([1, 1, 2, 3])
@@ -233,13 +262,17 @@ def generate(rng, tier):
     for _ in range(nops):
         pi = rng.randrange(nparsers)
         ops.append(gen_op(rng, pi, parsers[pi]["feats"]))
+    if rng.random() < (0.6 if not big else 1.0):
+        pi = rng.randrange(nparsers)
+        ops += [dict(b, p=pi) for b in rng.sample(BATTERY, rng.randint(2, 4))]
+        nops = len(ops)
     world = {
         "dirs": ["home", "run"],
         "files": {
             "run/c1.yaml": "a: 5\n" + ("base: Sub1\n" if rng.random() < 0.5 and all("base" in p["feats"] for p in parsers) else ""),
             "run/c2.yaml": "a: 2\n" + ("base:\n  class_path: dsim.simtypes.Sub1\n  init_args:\n    n: 2\n" if any("base" in p["feats"] for p in parsers) else "") + ("bdef: Base\n" if any("bdef" in p["feats"] for p in parsers) else ""),
             "run/bad.yaml": "a: [1\n",
-            "dflt.yaml": rng.choice(["a: 9\n", "", "a: 9\n"]),
+            "dflt.yaml": _dflt(rng, parsers),
         },
         "cwd": "run",
         "env": {},
@@ -271,8 +304,9 @@ def place_faults(sc, rng, golden):
     cands = [(int(i), j, k) for i, kinds in golden.items() for j, k in enumerate(kinds)]
     if not cands:
         return
+    cbs = [c for c in cands if c[2].startswith("cb:")]
     for _ in range(rng.choice([1, 1, 2])):
-        i, j, kind = rng.choice(cands)
+        i, j, kind = rng.choice(cbs) if cbs and rng.random() < 0.5 else rng.choice(cands)
         if kind.startswith("cb:"):
             ft = {"type": "raise", "cls": rng.choice(["ValueError", "TypeError", "RuntimeError", "KeyError", "OSError", "SimAbort"])}
         else:
@@ -403,6 +437,16 @@ def residue_tag(pre, R, F):
 
     if pre:
         return pre
+    if R is not None and F is not None:
+        # plain configuration attributes of the parser object itself (exit_on_error, default_env, parser_mode ...)
+        vr, vf = vars(R), vars(F)
+        for n in sorted(vr):
+            x = vr[n]
+            if n in ("args", "_dsim_spec") or n not in vf:
+                continue
+            if x is None or isinstance(x, (bool, int, str, float)) or (isinstance(x, (list, set, tuple)) and all(isinstance(e, (str, int)) for e in x)):
+                if x != vf[n]:
+                    return "parser-attr:" + n
     if R is not None and F is not None:
         # attributes that differ even between two fresh parsers of the same spec say nothing
         noise = set()
